@@ -717,8 +717,10 @@ def check_C03(tier, seed):
     mc_writer(rep, tier)
     if tier == QUICK:
         roundtrip_runs(rep, seed, "c03_", 12, 150)
+        parser_runs(rep, "robust", seed + 40, "c03p_", 6, 100, parsers="aag,aig", specs=("Trace_AigerRef",))
     else:
         roundtrip_runs(rep, seed, "c03_", 14, 4000)
+        parser_runs(rep, "robust", seed + 40, "c03p_", 14, 2000, parsers="aag,aig", specs=("Trace_AigerRef",))
         roundtrip_runs(rep, seed + 1, "c03r_", 14, 1500, release=True)
     rep.cov["rule"] = ("model: MC_Render checks Read(Render(v)) = v at specification level for every small value (AIGER ascii "
                        "and binary incl. two-byte delta codes, BTOR2, DIMACS through the token machine). traces: "
